@@ -864,7 +864,7 @@ def shrink_case(c):
 def shrink(c, pred_name):
     """greedy shrinking; every round evaluates all candidates in ONE harness + ONE coqc run."""
     cur = {k: v for k, v in c.items() if not k.startswith("_")}
-    for rnd in range(8):
+    for rnd in range(5):
         cands = shrink_case(cur)
         if not cands:
             break
